@@ -7,6 +7,7 @@ import Gts.Model.Seq
 import Gts.Model.GbSlice
 import Gts.Lemmas.Bounds
 import Gts.Lemmas.Window
+import Gts.Lemmas.SliceWrap
 import Gts.Lemmas.RefInfo
 import Gts.Lemmas.Record
 import Gts.Props.C04
@@ -445,6 +446,216 @@ example :
     expandAbs (((l.expand 0 (C04.rotN (-8) s.len)).normalize s.len).expand (s.len - 8 + 4) (s.len - 8 + 4 - s.len)) 0 (-0) = false := by
   decide
 
+/-! ### the wrap-around window as ONE position map; negative indices; where the features come from
+
+`wrapMap a b L` (`Gts/Lemmas/SliceWrap.lean`): a residue `x` inside `[a, L) ++ [0, b)` moves to
+`(x - a) mod L`, every other residue is cut.  `Bridge.sliceNorm L x` is what `Slice` makes of an
+index first (`if x < 0 { x += L }`). -/
+
+/-- the window map, piecewise: the tail `[a, L)` comes first (`x - a`), the head `[0, b)` behind it
+(`x + (L - a)`), in the order of the residues `seq[a:] ++ seq[:b]` of `slice_bytes_wrap` -/
+theorem slice_wrap_map (a b L x : Int) (hb : 0 ≤ b) (hba : b < a) (haL : a ≤ L) :
+    wrapMap a b L x =
+      if a ≤ x ∧ x < L then some (x - a) else if 0 ≤ x ∧ x < b then some (x + (L - a)) else none :=
+  wrapMap_cases a b L x hb hba haL
+
+/-- FULL STATEMENT of the wrap-around feature law (no K2 guard; false on the model and on the code
+through known finding K2 in the `Join` of the rotation step).  Witness: the feature
+`join(3..4,5)` on ten residues, window `Slice(seq, 8, 5)` = residues `9,10,1..5`: the law demands the
+window positions `4,5,6` (0-based), the code yields `5..6` — the point behind the range is dropped. -/
+theorem slice_wrap_feature_full_refuted :
+    ¬ (∀ (s : Seq) (a b : Int), 0 ≤ b → b < a → a ≤ s.len → ∀ f ∈ s.feats,
+        wf f.loc = true → nonneg f.loc = true → denIn s.len (den f.loc) →
+        normOk s.len (expand f.loc 0 (C04.rotN (-a) s.len)) = true →
+        ((f.loc.expand 0 (C04.rotN (-a) s.len)).normalize s.len).overlap 0 (s.len - a + b) = true →
+        ∃ f' ∈ (s.slice a b).feats, f'.key = f.key ∧ f'.props = f.props ∧
+          den f'.loc ≼ filterMapPos (wrapMap a b s.len) (den f.loc)) := by
+  intro h
+  obtain ⟨f', hf', _, _, hden⟩ :=
+    h ⟨[⟨"gene", joined [ranged 2 4 false false, point 4], []⟩], [97, 99, 103, 116, 97, 99, 103, 116, 97, 99]⟩
+      8 5 (by decide) (by decide) (by decide) _ (List.mem_singleton.mpr rfl)
+      (by decide) (by decide) (by decide) (by decide) (by decide)
+  have hs : (Seq.slice ⟨[⟨"gene", joined [ranged 2 4 false false, point 4], []⟩],
+      [97, 99, 103, 116, 97, 99, 103, 116, 97, 99]⟩ 8 5).feats = [⟨"gene", ranged 4 6 false false, []⟩] := by
+    rfl
+  rw [hs] at hf'
+  obtain rfl := List.mem_singleton.mp hf'
+  have := hden.2 (6, false) (by decide)
+  revert this
+  decide
+
+/-- **Slice (wrap-around window), every surviving feature in window coordinates**: with
+`0 ≤ b < a ≤ L` the window is `[a, L) ++ [0, b)`.  A feature inside the record whose rotated location
+overlaps `[0, L-a+b)` is a feature of the slice with unchanged key and qualifiers, and its new
+location denotes exactly its former residues inside the window, each at `(x - a) mod L`, in the same
+order and on the same strands (`≼`: a residue read twice possibly once) — `wrapMap` is the rotation
+of C04 followed by the forward cut.  Guards as in `slice_wrap_feature_partial`
+(`C04.rotate_feature_partial` ∘ `slice_fwd_feature_partial`). -/
+theorem slice_wrap_den_partial (s : Seq) (a b : Int) (hb : 0 ≤ b) (hba : b < a) (haL : a ≤ s.len)
+    (f : Feature) (hf : f ∈ s.feats)
+    (hw : wf f.loc = true) (hnn : nonneg f.loc = true) (hin : denIn s.len (den f.loc))
+    (hok : normOk s.len (expand f.loc 0 (C04.rotN (-a) s.len)) = true)
+    (h1 : expandAbs f.loc 0 (C04.rotN (-a) s.len) = false)
+    (h2 : normalizeAbs (expand f.loc 0 (C04.rotN (-a) s.len)) s.len = false)
+    (hov : ((f.loc.expand 0 (C04.rotN (-a) s.len)).normalize s.len).overlap 0 (s.len - a + b) = true)
+    (g1 : expandAbs ((f.loc.expand 0 (C04.rotN (-a) s.len)).normalize s.len)
+            (s.len - a + b) (s.len - a + b - s.len) = false)
+    (g2 : expandAbs (((f.loc.expand 0 (C04.rotN (-a) s.len)).normalize s.len).expand
+            (s.len - a + b) (s.len - a + b - s.len)) 0 (-0) = false) :
+    ∃ f' ∈ (s.slice a b).feats, f'.key = f.key ∧ f'.props = f.props ∧
+      den f'.loc ≼ filterMapPos (wrapMap a b s.len) (den f.loc) := by
+  have h := slice_wrap_feature_partial s a b hb hba haL f hf hw hnn hok h1 h2 hov g1 g2
+  rwa [filterMapPos_wrap a b s.len hb hba haL (den f.loc) hin] at h
+
+/-- **a feature with a residue inside the wrap-around window survives**: the overlap test of the
+code (on the rotated location) is implied by the meaning-level condition "some residue of the feature
+lies in `[a, L) ++ [0, b)`", so under the rotation guards alone every such feature is kept -/
+theorem slice_wrap_survives_partial (s : Seq) (a b : Int) (hb : 0 ≤ b) (hba : b < a) (haL : a ≤ s.len)
+    (f : Feature) (hw : wf f.loc = true) (hnn : nonneg f.loc = true) (hin : denIn s.len (den f.loc))
+    (hok : normOk s.len (expand f.loc 0 (C04.rotN (-a) s.len)) = true)
+    (h1 : expandAbs f.loc 0 (C04.rotN (-a) s.len) = false)
+    (h2 : normalizeAbs (expand f.loc 0 (C04.rotN (-a) s.len)) s.len = false)
+    (p : Pos) (hp : p ∈ den f.loc) (hwin : (a ≤ p.1 ∧ p.1 < s.len) ∨ (0 ≤ p.1 ∧ p.1 < b)) :
+    ((f.loc.expand 0 (C04.rotN (-a) s.len)).normalize s.len).overlap 0 (s.len - a + b) = true := by
+  have hL : 0 < s.len := by omega
+  have hr : 0 ≤ C04.rotN (-a) s.len := by
+    rw [C04.rotN_eq_emod _ _ hL]; exact Int.emod_nonneg _ (by omega)
+  have hwf' : wf ((f.loc.expand 0 (C04.rotN (-a) s.len)).normalize s.len) = true :=
+    (normalize_mod _ s.len hL ((expand_ins f.loc 0 _ hw hr).2) hok).2
+  have hd' := C04.rotate_den_partial f.loc (C04.rotN (-a) s.len) s.len hL hr hw hnn hok h1 h2
+  have e : mapPos (rotMap (C04.rotN (-a) s.len) s.len) (den f.loc) = mapPos (rotMap (-a) s.len) (den f.loc) := by
+    rw [C04.rotN_eq_emod _ _ hL, C04.rotMap_emod]
+  rw [e] at hd'
+  have hm : (rotMap (-a) s.len p.1, p.2) ∈ den ((f.loc.expand 0 (C04.rotN (-a) s.len)).normalize s.len) := by
+    apply hd'.2
+    simp only [mapPos, List.mem_map]
+    exact ⟨p, hp, rfl⟩
+  have hwm := winMap_rotMap a b s.len p.1 hb hba haL (hin p hp).1 (hin p hp).2
+  have hsome : wrapMap a b s.len p.1 = some ((p.1 - a) % s.len) := by
+    unfold wrapMap; rw [if_pos hwin]
+  rw [hsome] at hwm
+  unfold winMap at hwm
+  split at hwm
+  · rename_i hc
+    exact overlap_of_mem_den _ 0 (s.len - a + b) hwf' _ hm hc.1 hc.2
+  · cases hwm
+
+/-- non-vacuity of `slice_wrap_survives_partial`: residue 9 of `complement(join(<2..3,6,9..10))` lies in
+the tail `[8, 10)` of the window `Slice(seq, 8, 4)` (the other hypotheses: see the example below) -/
+example : ((9, true) : Pos) ∈ den (compl (joined [ranged 1 3 true false, point 5, ranged 8 10 false false])) ∧
+    (((8 : Int) ≤ 9 ∧ (9 : Int) < 10) ∨ ((0 : Int) ≤ 9 ∧ (9 : Int) < 4)) := by
+  decide
+
+/-- … and exactly those residues when the feature reads none twice -/
+theorem slice_wrap_den_nodup_partial (s : Seq) (a b : Int) (hb : 0 ≤ b) (hba : b < a) (haL : a ≤ s.len)
+    (f : Feature) (hf : f ∈ s.feats)
+    (hw : wf f.loc = true) (hnn : nonneg f.loc = true) (hin : denIn s.len (den f.loc))
+    (hnd : (filterMapPos (wrapMap a b s.len) (den f.loc)).Nodup)
+    (hok : normOk s.len (expand f.loc 0 (C04.rotN (-a) s.len)) = true)
+    (h1 : expandAbs f.loc 0 (C04.rotN (-a) s.len) = false)
+    (h2 : normalizeAbs (expand f.loc 0 (C04.rotN (-a) s.len)) s.len = false)
+    (hov : ((f.loc.expand 0 (C04.rotN (-a) s.len)).normalize s.len).overlap 0 (s.len - a + b) = true)
+    (g1 : expandAbs ((f.loc.expand 0 (C04.rotN (-a) s.len)).normalize s.len)
+            (s.len - a + b) (s.len - a + b - s.len) = false)
+    (g2 : expandAbs (((f.loc.expand 0 (C04.rotN (-a) s.len)).normalize s.len).expand
+            (s.len - a + b) (s.len - a + b - s.len)) 0 (-0) = false) :
+    ∃ f' ∈ (s.slice a b).feats, f'.key = f.key ∧ f'.props = f.props ∧
+      den f'.loc = filterMapPos (wrapMap a b s.len) (den f.loc) := by
+  obtain ⟨f', m, k, p, d⟩ := slice_wrap_den_partial s a b hb hba haL f hf hw hnn hin hok h1 h2 hov g1 g2
+  exact ⟨f', m, k, p, d.eq_of_nodup hnd⟩
+
+/-- **where the features of a wrap-around slice come from**: every feature of `Slice(seq, a, b)` is a
+feature of the record whose rotated location overlaps `[0, L-a+b)`, with its key and qualifiers,
+re-located by the rotation (`Expand(0, n)`, `Normalize(L)`), the cut (`Expand(W, W-L)`, `Expand(0, 0)`)
+and — `source` only — `asComplete` -/
+theorem slice_wrap_feature_origin (s : Seq) (a b : Int) (hb : 0 ≤ b) (hba : b < a)
+    (f' : Feature) (hf' : f' ∈ (s.slice a b).feats) :
+    ∃ f ∈ s.feats,
+      ((f.loc.expand 0 (C04.rotN (-a) s.len)).normalize s.len).overlap 0 (s.len - a + b) = true ∧
+      f'.key = f.key ∧ f'.props = f.props ∧
+      f'.loc = (if f.key = "source" then Loc.asComplete else id)
+        (sliceLoc ((f.loc.expand 0 (C04.rotN (-a) s.len)).normalize s.len) 0 (s.len - a + b)
+          (s.rotate (-a)).len) := by
+  rw [slice_wrap_eq s a b (by omega) hb hba] at hf'
+  unfold Seq.sliceFwd at hf'
+  obtain ⟨fr, hfr, rfl⟩ := List.mem_map.mp hf'
+  obtain ⟨hm, ho⟩ := List.mem_filter.mp hfr
+  have := (C04.rotate_table_perm s (-a)).subset hm
+  obtain ⟨f, hf, rfl⟩ := List.mem_map.mp this
+  refine ⟨f, hf, ho, rfl, rfl, ?_⟩
+  by_cases hs : f.key = "source" <;> simp [hs, sliceLoc]
+
+/-- … and there are exactly as many as features whose rotated location overlaps the window -/
+theorem slice_wrap_feature_count (s : Seq) (a b : Int) (hb : 0 ≤ b) (hba : b < a) :
+    (s.slice a b).feats.length =
+      (s.feats.filter fun f =>
+        ((f.loc.expand 0 (C04.rotN (-a) s.len)).normalize s.len).overlap 0 (s.len - a + b)).length := by
+  rw [slice_wrap_eq s a b (by omega) hb hba]
+  unfold Seq.sliceFwd
+  simp only [List.length_map]
+  rw [((C04.rotate_table_perm s (-a)).filter _).length_eq, List.filter_map, List.length_map]
+  rfl
+
+/-- **negative indices, as the code treats them**: `Slice` first adds the length to a negative
+`start` / `end` (once); from `-L` upwards that is all the sign does -/
+theorem slice_neg_norm (s : Seq) (a b : Int) (ha : 0 ≤ Bridge.sliceNorm s.len a)
+    (hb : 0 ≤ Bridge.sliceNorm s.len b) :
+    s.slice a b = s.slice (Bridge.sliceNorm s.len a) (Bridge.sliceNorm s.len b) := by
+  unfold Bridge.sliceNorm at *
+  generalize hA : (if a < 0 then a + s.len else a) = A at *
+  generalize hB : (if b < 0 then b + s.len else b) = B at *
+  unfold Seq.slice
+  simp only [hA, hB, if_neg (show ¬ A < 0 by omega), if_neg (show ¬ B < 0 by omega)]
+
+/-- wrap-around window given by indices of any sign: with `A`, `B` the normalised indices and
+`0 ≤ B < A ≤ L` the residues are `seq[A:] ++ seq[:B]` — `Slice(seq, -3, 2)` on ten residues is
+`seq[7:] ++ seq[:2]`, `Slice(seq, 5, -8)` is `seq[5:] ++ seq[:2]` -/
+theorem slice_wrap_neg_bytes (s : Seq) (a b A B : Int) (hA : Bridge.sliceNorm s.len a = A)
+    (hB : Bridge.sliceNorm s.len b = B) (hB0 : 0 ≤ B) (hBA : B < A) (hAL : A ≤ s.len) :
+    (s.slice a b).bytes = s.bytes.drop A.toNat ++ s.bytes.take B.toNat := by
+  subst hA hB
+  rw [slice_neg_norm s a b (by omega) hB0]
+  exact slice_bytes_wrap s _ _ hB0 hBA hAL
+
+/-- … and the feature law of `slice_wrap_den_partial` holds verbatim for the normalised indices -/
+theorem slice_wrap_neg_den_partial (s : Seq) (a b A B : Int) (hA : Bridge.sliceNorm s.len a = A)
+    (hB : Bridge.sliceNorm s.len b = B) (hB0 : 0 ≤ B) (hBA : B < A) (hAL : A ≤ s.len)
+    (f : Feature) (hf : f ∈ s.feats)
+    (hw : wf f.loc = true) (hnn : nonneg f.loc = true) (hin : denIn s.len (den f.loc))
+    (hok : normOk s.len (expand f.loc 0 (C04.rotN (-A) s.len)) = true)
+    (h1 : expandAbs f.loc 0 (C04.rotN (-A) s.len) = false)
+    (h2 : normalizeAbs (expand f.loc 0 (C04.rotN (-A) s.len)) s.len = false)
+    (hov : ((f.loc.expand 0 (C04.rotN (-A) s.len)).normalize s.len).overlap 0 (s.len - A + B) = true)
+    (g1 : expandAbs ((f.loc.expand 0 (C04.rotN (-A) s.len)).normalize s.len)
+            (s.len - A + B) (s.len - A + B - s.len) = false)
+    (g2 : expandAbs (((f.loc.expand 0 (C04.rotN (-A) s.len)).normalize s.len).expand
+            (s.len - A + B) (s.len - A + B - s.len)) 0 (-0) = false) :
+    ∃ f' ∈ (s.slice a b).feats, f'.key = f.key ∧ f'.props = f.props ∧
+      den f'.loc ≼ filterMapPos (wrapMap A B s.len) (den f.loc) := by
+  subst hA hB
+  rw [slice_neg_norm s a b (by omega) hB0]
+  exact slice_wrap_den_partial s _ _ hB0 hBA hAL f hf hw hnn hin hok h1 h2 hov g1 g2
+
+/-- non-vacuity: a complement-strand join `complement(join(<2..3,6,9..10))` on a 10-residue record, window
+`Slice(seq, -2, 4)` = `Slice(seq, 8, 4)` = residues `9,10,1,2,3,4`: the last part wraps to the front,
+the point is cut; and the wrap-around map itself -/
+example :
+    let s : Seq := ⟨[⟨"CDS", compl (joined [ranged 1 3 true false, point 5, ranged 8 10 false false]), []⟩],
+      [97, 99, 103, 116, 97, 99, 103, 116, 97, 99]⟩
+    let l := compl (joined [ranged 1 3 true false, point 5, ranged 8 10 false false])
+    Bridge.sliceNorm s.len (-2) = 8 ∧ Bridge.sliceNorm s.len 4 = 4 ∧
+    wf l = true ∧ nonneg l = true ∧ denIn s.len (den l) ∧
+    normOk s.len (expand l 0 (C04.rotN (-8) s.len)) = true ∧
+    expandAbs l 0 (C04.rotN (-8) s.len) = false ∧
+    normalizeAbs (expand l 0 (C04.rotN (-8) s.len)) s.len = false ∧
+    ((l.expand 0 (C04.rotN (-8) s.len)).normalize s.len).overlap 0 (s.len - 8 + 4) = true ∧
+    expandAbs ((l.expand 0 (C04.rotN (-8) s.len)).normalize s.len) (s.len - 8 + 4) (s.len - 8 + 4 - s.len) = false ∧
+    expandAbs (((l.expand 0 (C04.rotN (-8) s.len)).normalize s.len).expand (s.len - 8 + 4) (s.len - 8 + 4 - s.len)) 0 (-0) = false ∧
+    filterMapPos (wrapMap 8 4 s.len) (den l) = [(1, true), (0, true), (4, true), (3, true)] ∧
+    (filterMapPos (wrapMap 8 4 s.len) (den l)).Nodup ∧
+    (s.slice (-2) 4).bytes = [97, 99, 97, 99, 103, 116] := by
+  decide +kernel
+
 /-! ### the statements above, for the code AS IT IS WRITTEN NOW
 
 `Gts.Gen.seqDelete` / `seqErase` / `seqSlice` are regenerated from sequence.go on every run (go2lean/gseq.go);
@@ -496,9 +707,25 @@ theorem gen_slice_wrap_bytes {ι : Type} (ops : Gen.InfoOps ι) (fuel : Nat) (in
     (by rw [hn.1, hn.2]; omega) (by rw [hn.1]; exact hf)
   exact ⟨_, _, by rw [this, slice_bytes_wrap s a b hb hba haL]⟩
 
+/-- **`gts.Slice` as written**, wrap-around window given by indices of ANY sign whose normalised values
+satisfy `0 ≤ B < A ≤ L`: no panic, the residues are `seq[A:] + seq[:B]`, the table is that of
+`Seq.slice` (the subject of `slice_wrap_den_partial` / `slice_wrap_feature_origin`), the metadata goes
+through `Rotate`'s and then `trySlice(·, 0, L-A+B)` and `WithTopology(Linear)` -/
+theorem gen_slice_wrap_spec {ι : Type} (ops : Gen.InfoOps ι) (fuel : Nat) (info : ι) (s : Seq) (a b A B : Int)
+    (hA : Bridge.sliceNorm s.len a = A) (hB : Bridge.sliceNorm s.len b = B)
+    (hB0 : 0 ≤ B) (hBA : B < A) (hAL : A ≤ s.len) (hf : A ≤ fuel + 1) :
+    Gen.seqSlice ops (fuel + 2) info s.feats s.bytes a b =
+      .ok (ops.withTopology (ops.trySlice info 0 (s.len - A + B)) 0, (s.slice a b).feats,
+        s.bytes.drop A.toNat ++ s.bytes.take B.toNat) := by
+  have := Bridge.seqSlice_wrap ops fuel info s a b (by rw [hA, hB]; exact hBA) (by omega)
+    (by rw [hA, hB]; omega) (by rw [hA]; exact hf)
+  rw [this, hA, hB, slice_wrap_neg_bytes s a b A B hA hB hB0 hBA hAL]
+
 -- non-vacuity: windows of a sequence of six residues
 example : Bridge.deleteOk (⟨[], [65, 67, 71, 84, 65, 67]⟩ : Seq).len 2 3 := by decide
 example : (0 : Int) ≤ 1 ∧ (1 : Int) ≤ 4 ∧ (4 : Int) ≤ (⟨[], [65, 67, 71, 84, 65, 67]⟩ : Seq).len := by decide
 example : (0 : Int) ≤ 2 ∧ (2 : Int) < 5 ∧ (5 : Int) ≤ (⟨[], [65, 67, 71, 84, 65, 67]⟩ : Seq).len ∧ (5 : Int) ≤ (4 : Nat) + 1 := by decide
+example : Bridge.sliceNorm (⟨[], [65, 67, 71, 84, 65, 67]⟩ : Seq).len (-1) = 5 ∧ Bridge.sliceNorm (⟨[], [65, 67, 71, 84, 65, 67]⟩ : Seq).len (-4) = 2 ∧
+    (0 : Int) ≤ 2 ∧ (2 : Int) < 5 ∧ (5 : Int) ≤ (⟨[], [65, 67, 71, 84, 65, 67]⟩ : Seq).len ∧ (5 : Int) ≤ (4 : Nat) + 1 := by decide
 
 end Gts.C03
